@@ -305,21 +305,29 @@ def ev(t, env):
 
 def wellformed_ast(t):
     """Spec-level shape check: NOT has exactly one operand, binary operators two, aggregates one or
-    two, terms are scalars."""
-    if isinstance(t, (list, tuple)):
-        if not t or not isinstance(t[0], str):
+    two, terms are scalars.  (Explicit stack: chains of several hundred operands are legitimate inputs.)"""
+    stack = [t]
+    while stack:
+        t = stack.pop()
+        if isinstance(t, (list, tuple)):
+            if not t or not isinstance(t[0], str):
+                return False
+            n = len(t) - 1
+            if t[0] == "NOT":
+                ok = n == 1
+            elif t[0] in AGGR:
+                ok = n in (1, 2)
+            else:
+                ok = n == 2
+            if not ok:
+                return False
+            for x in t[1:]:
+                if x is None:
+                    return False
+                stack.append(x)
+        elif not (isinstance(t, (str, int, float)) and not isinstance(t, bool)):
             return False
-        if any(x is None for x in t[1:]):
-            return False
-        n = len(t) - 1
-        if t[0] == "NOT":
-            ok = n == 1
-        elif t[0] in AGGR:
-            ok = n in (1, 2)
-        else:
-            ok = n == 2
-        return ok and all(wellformed_ast(x) for x in t[1:])
-    return isinstance(t, (str, int, float)) and not isinstance(t, bool)
+    return True
 
 
 def equivalent(a, b):
@@ -513,3 +521,10 @@ def inplace_edit_ast(ast_obj, ast_spec, r, names, ops=("AND", "OR", "IMPLIES")):
         n.left = build_ast(repl)
     s[i] = repl
     return new
+
+
+def rename_ast(t, mapping):
+    """Spec-level rename of the terms of an expression tree."""
+    if isinstance(t, list):
+        return [t[0]] + [rename_ast(x, mapping) for x in t[1:]]
+    return mapping.get(t, t) if isinstance(t, str) else t
